@@ -211,7 +211,8 @@ var badSpellings = []string{"", "not-an-ip", "[::1]", "1.2.3", "fe80::1%eth0", "
 type world struct {
 	dir   string
 	path  string
-	db    walletdb.DB
+	db    walletdb.DB // the raw database (dumps read it directly)
+	hook  *hookDB     // what the store is given: the same database, transactions observable (concurrent.go)
 	store banman.Store
 }
 
@@ -225,7 +226,8 @@ func newWorld() (*world, error) {
 	if err != nil {
 		return nil, err
 	}
-	w.store, err = banman.NewStore(w.db)
+	w.hook = &hookDB{DB: w.db}
+	w.store, err = banman.NewStore(w.hook)
 	return w, err
 }
 
@@ -238,7 +240,8 @@ func (w *world) reopen() string {
 		return "err:open"
 	}
 	w.db = db
-	w.store, err = banman.NewStore(db)
+	w.hook = &hookDB{DB: db}
+	w.store, err = banman.NewStore(w.hook)
 	if err != nil {
 		return "err:newstore"
 	}
@@ -350,6 +353,13 @@ func (x *runner) comment(tg target) { x.r.line("# %s %q mask=%v", tg.via, tg.spe
 
 func (x *runner) ban(tg target, reason uint8, durMs int64) string {
 	x.comment(tg)
+	op, obs := x.banCall("ban", tg, reason, durMs)
+	x.r.op(op, obs)
+	return obs
+}
+
+// banCall performs the ban and returns its trace line without writing it.
+func (x *runner) banCall(word string, tg target, reason uint8, durMs int64) (string, string) {
 	var t0, t1 int64
 	obs := guarded(func() string {
 		t0 = nowMs()
@@ -380,8 +390,7 @@ func (x *runner) ban(tg target, reason uint8, durMs int64) string {
 	default:
 		x.r.hit("dur.24h")
 	}
-	x.r.op(fmt.Sprintf("ban %s %d %d %d %d", tg.words(), reason, durMs, t0, t1), obs)
-	return obs
+	return fmt.Sprintf("%s %s %d %d %d %d", word, tg.words(), reason, durMs, t0, t1), obs
 }
 
 func (x *runner) status(tg target) string {
@@ -600,8 +609,10 @@ func Run(t *tr.W, thorough bool) {
 	mult := tr.EnvInt("VERIF_BUDGET", 1)
 	nRandom, nOps := 64*mult, 36
 	nSpell, nLapse, nProbe, nStraddle := 12*mult, 6*mult, 3, 6
+	nInterpose, nRace, raceRounds := 6, 2, 120*mult
 	if thorough {
 		nRandom, nOps, nSpell, nLapse, nProbe = 600*mult, 60, 100*mult, 60*mult, 10
+		nInterpose, nRace, raceRounds = 40, 8, 400*mult
 	}
 	if os.Getenv("VERIF_SEARCH") == "1" {
 		// bin/check is looking for a failing input after a broken tie: wall-clock bound (cases sleep), not op bound
@@ -617,6 +628,12 @@ func Run(t *tr.W, thorough bool) {
 	}
 	for i := 0; i < nStraddle; i++ {
 		jobs = append(jobs, job{"straddle", int64(i)})
+	}
+	for i := 0; i < nInterpose; i++ {
+		jobs = append(jobs, job{"interpose", int64(i)})
+	}
+	for i := 0; i < nRace; i++ {
+		jobs = append(jobs, job{"race", int64(i)})
 	}
 	for i := 0; i < nSpell; i++ {
 		jobs = append(jobs, job{"spellings", int64(i)})
@@ -638,7 +655,7 @@ func Run(t *tr.W, thorough bool) {
 			defer func() { <-sem }()
 			r := &rec{hits: map[string]int{}}
 			results[i] = r
-			salt := int64(1300000) + map[string]int64{"probe": 1, "spellings": 2, "lapse": 3, "random": 4, "straddle": 5}[j.kind]*100000 + j.seed
+			salt := int64(1300000) + map[string]int64{"probe": 1, "spellings": 2, "lapse": 3, "random": 4, "straddle": 5, "interpose": 6, "race": 7}[j.kind]*100000 + j.seed
 			rng := tr.Rng(salt)
 			w, err := newWorld()
 			if err != nil {
@@ -656,6 +673,10 @@ func Run(t *tr.W, thorough bool) {
 				lapseCase(rng, x)
 			case "straddle":
 				straddleCase(rng, x)
+			case "interpose":
+				interposeCase(rng, x)
+			case "race":
+				raceCase(rng, x, raceRounds)
 			default:
 				randomCase(rng, x, nOps)
 			}
